@@ -285,7 +285,9 @@ def loopStep (s : St) (i : LoopInp) : St :=
   | .polling =>
     let s := { s with polling := false }
     if i.pollErr && s.queue.isEmpty then { s with phase := .failed }
-    else { i.events.foldl dispatchFd s with phase := .idle }
+    else
+      -- a failed poll (n = -1, e.g. EINTR, or EBADF with handlers still queued) reports nothing
+      { (if i.pollErr then [] else i.events).foldl dispatchFd s with phase := .idle }
   | .stopped => s
   | .failed => s
 where
